@@ -46,6 +46,12 @@ def floors(tier):
             "M4.nonbipartite": 100, "M4.bipartite": 1000, "direct.bipartite": 2000, "direct.matchable": 3000, "set:kinds": 30, "order_groups": 500}
 
 
+def ceilings(tier):
+    # F3 (no blossom step) is rare: on the unchanged tree about 0.04 % of the matching calls on non-bipartite graphs
+    # show a blossom symptom (DESIGN.md section 6: 3 of 20 000 graphs, 2 of 12 000 spellings)
+    return {F3: ("M4.nonbipartite", 0.004)}
+
+
 def _has_f4_atom(mi):
     """aromatic group-14 anion, no H, exactly two aromatic neighbours"""
     adj = mi.adjacency()
